@@ -412,7 +412,8 @@ impl core::fmt::Display for Style {
     #[inline]
     fn fmt(&self, f: &mut core::fmt::Formatter<'_>) -> core::fmt::Result {
         if f.alternate() {
-            self.render_reset().fmt(f)
+            // `str`'s `Display` would apply width / precision; the reset code must be written as-is
+            f.write_str(if *self != Self::new() { RESET } else { "" })
         } else {
             self.fmt_to(f)
         }
